@@ -469,6 +469,22 @@ def check(run: Run) -> None:
         from . import c06 as c06_b
         R.share(run, "C09.p", c06_b, ["C06.b"])
 
+    with run.obligation("C09.q", "K11", "a passive() argument stays passive inside a nested sub-graph: the boundary placeholder the child is compiled against carries the argument's "
+                        "tag (the consumer's matching input is removed from its active list exactly as when the body is inlined) - subgraph_wiring_detail::boundary_shape must "
+                        "propagate `source.arg_tag` onto the placeholder it builds (KNOWN FINDING F-C09-3 on the current tree)"):
+        SWH = "include/hgraph/types/subgraph_wiring.h"
+        fa = R.fn(run, SWH, "boundary_shape")
+        cn = R.Canon()
+        mentions_tag = any(isinstance(x, C.Member) and x.name == "arg_tag" for x in fa.body.walk()) or any("arg_tag" in cn(c) or "with_tag" in cn(c) or "tagged" in cn(c) for c in R.calls(fa))
+        placeholders = [c for c in R.calls(fa) if R.callee_name(c).endswith("boundary_source")]
+        run.sites(len(placeholders), 1, "boundary placeholders built by boundary_shape")
+        run.count(1, "C09.q")
+        if not mentions_tag:
+            run.finding("C09.q", "boundary_shape:argument-tag-dropped", "boundary_shape builds the child's boundary placeholder from the argument's schema only "
+                        f"({cn(placeholders[0])[:90]}): the ArgTag of the outer port (passive()) reaches the outer nested node's input slot but not the consumer inside the child, which "
+                        "stays active, is notified by the upstream output it is bound to, and wakes the nested node through the push half of the schedule delegation - "
+                        "nested_<G>(passive(x), t) is evaluated on every tick of x, the inlined G only on t", loc=fa.loc(placeholders[0]))
+
 
 def HDRX(cn, tail):
     return "graph_header(graph_context(context),graph.data())." + tail
